@@ -60,7 +60,7 @@ def setup():
 def pinned(r, i):
   """Scenarios that pin a deadline at a chosen hop."""
   stack = ['thrift', 'mux'][i % 2]
-  hop = r.choice(['gate', 'pool', 'connect', 'sendq', 'wire', 'wire'])
+  hop = r.choice(['gate', 'gatewire', 'pool', 'connect', 'sendq', 'slowq', 'wire', 'wire'])
   off = r.choice([-1, 0, 0, 1])
   spec = {'stack': stack, 'tie': r.choice(['fifo', 'lifo']), 'timeout': 64, 'seed': r.randrange(1 << 30),
           'resolution': r.choice([1, 1, 4]), 'endpoints': [{'port': 9001, 'default': {'act': 'reply', 'delay': r.choice([0, 2, 30])},
@@ -72,8 +72,31 @@ def pinned(r, i):
     d = r.choice([3, 8, 20])
     ep['connect_delay'] = d
     spec['open_timeout0'] = True
-    spec['events'] = [{'at': 0, 'op': 'call', 'id': 'c0', 'timeout': max(1, d + off)},
-                      {'at': 0, 'op': 'call', 'id': 'c1', 'timeout': max(1, d + off + r.choice([0, 1]))}]
+    direct = r.random() < 0.7
+    spec['events'] = [{'at': 0, 'op': 'call', 'id': 'c0', 'timeout': max(1, d + off), 'direct': direct},
+                      {'at': 0, 'op': 'call', 'id': 'c1', 'timeout': max(1, d + off + r.choice([0, 1])), 'direct': direct}]
+  elif hop == 'gatewire':
+    # issued while the balancer is still opening, survives the wait, then times out on the wire unanswered
+    d = r.choice([2, 6, 15])
+    ep['connect_delay'] = d
+    spec['open_timeout0'] = True
+    T = d + r.choice([3, 8, 20])
+    ep['plan'] = {'c0': {'act': 'drop'}, 'c1': {'act': 'reply', 'delay': T + 5}}
+    direct = r.random() < 0.8
+    spec['events'] = [{'at': 0, 'op': 'call', 'id': 'c0', 'timeout': T, 'direct': direct},
+                      {'at': 1, 'op': 'call', 'id': 'c1', 'timeout': T, 'direct': direct},
+                      {'at': d + 1, 'op': 'call', 'id': 'c2', 'timeout': T}]
+  elif hop == 'slowq':
+    # a slow write stalls the send loop (or the serial transaction) while later requests time out behind it
+    sd = r.choice([3, 6, 10])
+    ep['send_delay'] = sd
+    n = r.choice([3, 4, 6])
+    spec['events'] = [{'at': 0, 'op': 'call', 'id': 'c0', 'timeout': 64}]
+    for k in range(1, n):
+      spec['events'].append({'at': r.choice([0, 0, 1]), 'op': 'call', 'id': 'c%d' % k,
+                             'timeout': r.choice([1, 2, sd - 1, sd, sd + 1, 64])})
+    ep['default'] = {'act': 'reply', 'delay': r.choice([0, 2])}
+    spec['pool'] = {'min': 1, 'max': r.choice([1, 2]), 'maxq': 8}
   elif hop == 'pool' and stack == 'thrift':
     # max_watermark 1: c1 waits for c0's connection; c0 answers after `d`; c1's deadline around that moment
     d = r.choice([4, 10, 25])
@@ -193,13 +216,15 @@ def monitor(case, obs):
       continue
     hseq, htick = handed[-1], handed[0]
     for rq in x['reqs']:
-      if rq['seq'] > hseq:
-        v.append(('write-after-timeout', 'call %s was handed TimeoutError at tick %s and its request was written to port %s at tick %s afterwards'
-                  % (cid, htick, rq['port'], rq['at'])))
+      # a write counts from the moment it starts (a frame whose write began before the time-out is completed:
+      # aborting it would corrupt the stream; see ASSUMPTIONS)
+      if rq['wseq'] > hseq:
+        v.append(('write-after-timeout', 'call %s was handed TimeoutError at tick %s and the write of its request to port %s started at tick %s afterwards'
+                  % (cid, htick, rq['port'], rq['wat'])))
     # discard expectation (mux only)
     if case['spec']['stack'] == 'mux':
       fired = [e for e in x['ev'] if e[1] == 'timer-fire' and e[3]]
-      written = [rq for rq in x['reqs'] if rq['seq'] < hseq]
+      written = [rq for rq in x['reqs'] if rq['wseq'] < hseq]
       if fired and written:
         rq = written[0]
         plan, default = plans[rq['port']]
@@ -208,7 +233,8 @@ def monitor(case, obs):
                                                                    and rq['at'] + act.get('delay', 0) > htick)
         closed = [cl for cl in obs['closes'] if str(cl[1]) == rq['port'] and cl[2] == rq['conn']]
         still_open = not closed or min(cl[0] for cl in closed) > htick + 1
-        settled = obs['now'] >= htick + 2
+        slow = max([ep.get('send_delay', 0) for ep in case['spec']['endpoints']] + [0])
+        settled = obs['now'] >= htick + 2 + 40 * slow
         mine = [d for d in x['discards'] if d['conn'] == rq['conn']]
         if answered_later_or_never and still_open and settled and not mine:
           v.append(('discard-missing', 'call %s (tag %s) timed out at tick %s after being written at tick %s on an open connection, no Tdiscarded naming its tag was sent'
@@ -226,7 +252,7 @@ def _labels(cid, x, obs, spec):
   items = []   # (seq, tick, label)
   wrote = None
   for rq in x['reqs']:
-    items.append((rq['seq'], rq['at'], 'Write'))
+    items.append((rq['wseq'], rq['wat'], 'Write'))
     wrote = rq
   fired = False
   entered = None
@@ -250,8 +276,10 @@ def _labels(cid, x, obs, spec):
       items.append((sq, t, 'Answered'))
     elif k == 'complete':
       if e[3] == 'TimeoutError':
-        if fired or entered is None:
-          pass          # part of Fire
+        if fired:
+          items.append((sq, t, 'TimedOut'))
+        elif entered is None:
+          pass
         elif wrote is not None and spec['stack'] == 'thrift':
           items.append((sq, t, 'SerialTimeout'))
         elif to_serial_ok is not None:
@@ -261,7 +289,7 @@ def _labels(cid, x, obs, spec):
         items.append((sq, t, 'Complete'))
   if wrote is not None:
     for cl in obs['closes']:
-      if str(cl[1]) == wrote['port'] and cl[2] == wrote['conn'] and cl[3] is not None and cl[3] > wrote['seq']:
+      if str(cl[1]) == wrote['port'] and cl[2] == wrote['conn'] and cl[3] is not None and cl[3] > wrote['wseq']:
         items.append((cl[3], cl[0], 'ConnClosed'))
         break
   for d in x['discards']:
@@ -276,7 +304,8 @@ def _labels(cid, x, obs, spec):
     labels.append(l)
   handed = any(e[1] == 'complete' and e[3] == 'TimeoutError' for e in x['ev'])
   fire_tick = max([e[0] for e in x['ev'] if e[1] == 'timer-fire' and e[3]] + [-1])
-  settled = fire_tick >= 0 and obs['now'] >= fire_tick + 2
+  slow = max([ep.get('send_delay', 0) for ep in spec['endpoints']] + [0])
+  settled = fire_tick >= 0 and obs['now'] >= fire_tick + 2 + 40 * slow
   return labels, handed, settled
 
 
@@ -290,7 +319,7 @@ def to_coq(case, obs):
     if any(e[1] == 'tsink' and e[3] is None for e in x['ev']):
       continue   # no deadline on this call
     labels, handed, settled = _labels(cid, x, obs, case['spec'])
-    writes = C.zlist([rq['at'] for rq in sorted(x['reqs'], key=lambda q: -q['seq'])])
+    writes = C.zlist([rq['wat'] for rq in sorted(x['reqs'], key=lambda q: -q['wseq'])])
     discards = C.zlist([d['named'] for d in sorted(x['discards'], key=lambda q: -q['seq'])])
     terms.append('{| c_start := %s; c_labels := %s; c_handed := %s; c_writes := %s; c_discards := %s; c_settled := %s |}' % (
         C.zlit(x['c']['issued']), C.lst(labels), C.blit(handed), writes, discards, C.blit(settled)))
